@@ -7,6 +7,7 @@ Property theorems only.  Index theorems hold over every commutative star-ring `R
 import NumqiProofs.Channel
 import NumqiProofs.ChannelBloch
 import NumqiProofs.ChannelSpectral
+import NumqiProofs.ChannelContract
 import NumqiProps.C16
 import Mathlib.Analysis.Real.Sqrt
 import Mathlib.Data.Complex.Basic
@@ -319,10 +320,133 @@ theorem relative_entropy_commuting_nonneg {d : ℕ} (p q : Fin d → ℝ) (hp : 
   calc (0 : ℝ) = ∑ i, (p i - q i) := by rw [sum_sub_distrib, hsp, hsq, sub_self]
     _ ≤ _ := sum_le_sum fun i _ => hterm i
 
+/-! ### trace distance and Rényi entropy (spectral level), classical data processing
+
+`get_trace_distance` / `get_Renyi_entropy` after their `eigvalsh` call are `traceDistSpec` / `renyiSpec`.  **Contractivity**, the
+second half of the property, is proved here for commuting states under classical channels: a channel that maps the common
+eigenbasis of `ρ`, `σ` onto a common eigenbasis acts on the spectra as a column-stochastic matrix `M` (`pushforward M`), and then
+trace distance does not increase, fidelity does not decrease, relative entropy does not increase.  **For non-commuting states the
+data-processing inequalities remain probe-only.** -/
+
+/-- **trace distance of commuting states**: `Σ|p_i − q_i|/2`, symmetric, zero on equal arguments, in `[0, 1]`. -/
+theorem trace_distance_commuting_range {d : ℕ} (p q : Fin d → ℝ) (hp : ∀ i, 0 ≤ p i) (hq : ∀ i, 0 ≤ q i)
+    (hsp : ∑ i, p i = 1) (hsq : ∑ i, q i = 1) :
+    traceDistComm (List.ofFn p) (List.ofFn q) = (∑ i, |p i - q i|) / 2 ∧
+    traceDistComm (List.ofFn p) (List.ofFn q) = traceDistComm (List.ofFn q) (List.ofFn p) ∧
+    traceDistComm (List.ofFn p) (List.ofFn p) = 0 ∧
+    0 ≤ traceDistComm (List.ofFn p) (List.ofFn q) ∧ traceDistComm (List.ofFn p) (List.ofFn q) ≤ 1 := by
+  rw [traceDistComm_eq p q, traceDistComm_eq q p, traceDistComm_eq p p]
+  refine ⟨rfl, ?_, by simp, td_nonneg p q, td_le_one p q hp hq hsp hsq⟩
+  congr 1
+  exact sum_congr rfl fun i _ => abs_sub_comm _ _
+
+/-- **trace distance does not increase** under a classical channel (column-stochastic `M`), for all real vectors. -/
+theorem trace_distance_classical_contractive {d e : ℕ} (M : Fin e → Fin d → ℝ) (hM : ColStochastic M) (p q : Fin d → ℝ) :
+    traceDistComm (List.ofFn (pushforward M p)) (List.ofFn (pushforward M q)) ≤ traceDistComm (List.ofFn p) (List.ofFn q) := by
+  rw [traceDistComm_eq, traceDistComm_eq]
+  exact div_le_div_of_nonneg_right (td_mono M hM p q) (by norm_num)
+
+/-- **fidelity does not decrease** under a classical channel (Cauchy–Schwarz row by row). -/
+theorem fidelity_classical_monotone {d e : ℕ} (M : Fin e → Fin d → ℝ) (hM : ColStochastic M) (p q : Fin d → ℝ)
+    (hp : ∀ i, 0 ≤ p i) (hq : ∀ i, 0 ≤ q i) :
+    fidelitySpec (List.ofFn p) (List.ofFn q) ≤ fidelitySpec (List.ofFn (pushforward M p)) (List.ofFn (pushforward M q)) := by
+  rw [fidelitySpec_eq p q hp hq, fidelitySpec_eq _ _ (pushforward_nonneg hM hp) (pushforward_nonneg hM hq)]
+  have h0 : 0 ≤ ∑ i, √(p i) * √(q i) := sum_nonneg fun i _ => mul_nonneg (Real.sqrt_nonneg _) (Real.sqrt_nonneg _)
+  exact pow_le_pow_left₀ h0 (bc_mono M hM p q hp hq) 2
+
+/-- **relative entropy does not increase** under a classical channel (log-sum inequality), full-rank second argument. -/
+theorem relative_entropy_classical_monotone {d e : ℕ} (M : Fin e → Fin d → ℝ) (hM : ColStochastic M) (p q : Fin d → ℝ)
+    (hp : ∀ i, 0 ≤ p i) (hq : ∀ i, 0 < q i) :
+    relEntropySpec 0 (List.ofFn (pushforward M p)) (List.ofFn (pushforward M q)) ≤ relEntropySpec 0 (List.ofFn p) (List.ofFn q) := by
+  rw [relEntropySpec_eq p q hp (fun i => (hq i).le),
+    relEntropySpec_eq _ _ (pushforward_nonneg hM hp) (pushforward_nonneg hM fun i => (hq i).le)]
+  exact kl_mono M hM p q hp hq
+
+/-- a classical channel maps probability vectors to probability vectors -/
+theorem classical_channel_preserves_simplex {d e : ℕ} (M : Fin e → Fin d → ℝ) (hM : ColStochastic M) (p : Fin d → ℝ)
+    (hp : ∀ i, 0 ≤ p i) (hsum : ∑ i, p i = 1) : (∀ i, 0 ≤ pushforward M p i) ∧ ∑ i, pushforward M p i = 1 :=
+  ⟨pushforward_nonneg hM hp, by rw [pushforward_sum hM, hsum]⟩
+
+/-- **`0 ≤ S_α(ρ) ≤ log d`** for every order `α > 0`, `α ≠ 1` and every probability vector of eigenvalues. -/
+theorem renyi_range {d : ℕ} (hd : 0 < d) (α : ℝ) (h0 : 0 < α) (hne : α ≠ 1) (p : Fin d → ℝ) (hp : ∀ i, 0 ≤ p i)
+    (hsum : ∑ i, p i = 1) :
+    0 ≤ renyiSpec α (List.ofFn p) ∧ renyiSpec α (List.ofFn p) ≤ Real.log d := by
+  rw [renyiSpec_eq]
+  exact renyi_range' hd α h0 hne p hp hsum
+
+/-- non-vacuity: a column-stochastic matrix that is not a permutation -/
+example : ColStochastic (fun (_ : Fin 2) (_ : Fin 3) => (1 / 2 : ℝ)) := ⟨fun _ _ => by norm_num, fun _ => by simp⟩
+
 /-- non-vacuity of the spectral hypotheses -/
 example : ∃ p : Fin 2 → ℝ, (∀ i, 0 ≤ p i) ∧ ∑ i, p i = 1 := ⟨fun _ => 1 / 2, fun _ => by norm_num, by simp⟩
 
 end spectral
+
+/-! ## `super_op_to_kraus_op`, the `zero_eps` cut, purity -/
+
+/-- **Kraus operators recovered from a super-operator implement it**: `super_op_to_kraus_op(S)` hands `superToChoi S` to `eigh`; given
+the `eigh` contract for that matrix on the columns kept after the cut, the returned Kraus set acts as `apply_super_op(S, ·)`. -/
+theorem kraus_of_super (din dout N0 N : ℕ) (V : ℕ → ℕ → R) (w : ℕ → R) (S ρ : ℕ → ℕ → R)
+    (hC : ∀ x y, superToChoi din dout S x y = ∑ s ∈ range N, (V x (N0 + s) * w (N0 + s)) * star (V y (N0 + s) * w (N0 + s)))
+    (a b : ℕ) (ha : a < dout) (hb : b < dout) :
+    applyKraus N din (choiToKraus dout N0 V w) ρ a b = applySuper din dout S ρ a b := by
+  rw [← applyChoi_eq_applyKraus N din dout _ ρ a b ha hb, ← applyChoi_superToChoi din dout S ρ a b ha hb]
+  simp only [applyChoi, sumRange_eq_sum]
+  exact sum_congr rfl fun i _ => sum_congr rfl fun j _ => by
+    rw [kraus_of_choi dout N0 N V w (superToChoi din dout S) hC]
+
+/-- the integer cut `x ≤ 0` the exact tie uses is the code's `EVL < zero_eps` for every threshold in `(0, 1]` -/
+theorem cutCount_eq_below (eps : ℚ) (h0 : 0 < eps) (h1 : eps ≤ 1) (evl : List ℤ) :
+    cutCount evl = cutCountBelow (fun x e => decide (x < e)) eps (evl.map fun x => (x : ℚ)) := by
+  have key : ∀ x : ℤ, decide (x ≤ 0) = decide ((x : ℚ) < eps) := by
+    intro x
+    rw [decide_eq_decide]
+    constructor
+    · intro h; have : (x : ℚ) ≤ 0 := by exact_mod_cast h
+      linarith
+    · intro h
+      by_contra hx
+      have h2 : (1 : ℤ) ≤ x := by omega
+      have : (1 : ℚ) ≤ x := by exact_mod_cast h2
+      linarith
+  unfold cutCount cutCountBelow
+  induction evl with
+  | nil => rfl
+  | cons x l ih =>
+    simp only [List.map_cons, List.filter_cons, key x]
+    split <;> simp [ih]
+
+/-- the cut keeps exactly the last `n − N0` entries of an ascending eigenvalue list: every kept eigenvalue is `≥ eps` -/
+theorem cutCountBelow_sorted (eps : ℚ) (evl : List ℚ) (hs : evl.Pairwise (· ≤ ·)) (k : ℕ) (hk : k < evl.length)
+    (hcut : cutCountBelow (fun x e => decide (x < e)) eps evl ≤ k) : eps ≤ evl[k] := by
+  unfold cutCountBelow at hcut
+  simp only at hcut
+  by_contra hlt
+  rw [not_le] at hlt
+  -- every entry up to position k is below eps, so at least k+1 entries are counted
+  have hall : ∀ i (hi : i < evl.length), i ≤ k → evl[i] < eps := fun i hi hik => by
+    rcases Nat.lt_or_eq_of_le hik with h | h
+    · exact lt_of_le_of_lt (List.pairwise_iff_getElem.1 hs i k hi hk h) hlt
+    · subst h; exact hlt
+  have hsub : (evl.take (k + 1)).filter (fun x => decide (x < eps)) = evl.take (k + 1) := by
+    rw [List.filter_eq_self]
+    intro x hx
+    obtain ⟨i, hi, rfl⟩ := List.getElem_of_mem hx
+    rw [List.length_take] at hi
+    rw [List.getElem_take]
+    simpa using hall i (by omega) (by omega)
+  have hlen : k + 1 ≤ (evl.filter fun x => decide (x < eps)).length := by
+    have h1 : ((evl.take (k + 1)).filter fun x => decide (x < eps)).length ≤ (evl.filter fun x => decide (x < eps)).length :=
+      (List.Sublist.filter _ (List.take_sublist _ _)).length_le
+    rw [hsub, List.length_take] at h1
+    omega
+  omega
+
+/-- **purity** is `tr(ρ† ρ)` … -/
+theorem purity_eq_trace (n : ℕ) (ρ : ℕ → ℕ → R) :
+    purity n ρ = ∑ j ∈ range n, ∑ i ∈ range n, star (ρ i j) * ρ i j := by
+  simp only [purity, sumRange_eq_sum, conj_eq_star]
+  exact sum_comm
 
 /-- non-vacuity: the index hypotheses are satisfiable and the maps are not constant (ℤ with trivial star) -/
 example : krausToChoi 1 2 (fun _ a i => ((10 * a + i + 1 : ℕ) : ℤ)) (1 * 2 + 1) (0 * 2 + 1) = 12 * 11 := by
